@@ -308,7 +308,7 @@ def theorem_of(l):
     statement is only judged (per recorded statement) by the oracle"""
     ep, sql = l["ep"], l["sql"]
     if ep in ("loki_tail",) or ep.startswith("loki_range_") or ep.startswith("loki_instant_"):
-        return "every_scan_confined / every_metric_scan_confined (LogqlPlan)"
+        return "every_scan_bounded / every_metric_scan_bounded (LogqlPlan)"
     if ep in LV_EPS:
         return "label_values_every_scan_bounded / series_every_scan_bounded (ScansPlanners)"
     if ep in ("loki_labels", "prom_labels"):
@@ -1106,6 +1106,31 @@ def static_date_sites(ck):
                      no_input=True)
 
 
+SLOT_NS = 15000000000      # Scans.table_info: metrics_15s = CSlot 15000000000
+
+
+def static_slot_stamp(ck):
+    """the roll-up table is a slot table of exactly the width the oracle assumes: every materialized view that fills metrics_15s
+    (ctrl/qryn/sql/*.sql) stamps its rows with intDiv(samples.timestamp_ns, 15000000000) * 15000000000 and groups by that stamp"""
+    from vcheck import REPO
+    d = os.path.join(REPO, "ctrl", "qryn", "sql")
+    views, bad = 0, []
+    for fn in sorted(os.listdir(d)) if os.path.isdir(d) else []:
+        if not fn.endswith(".sql"):
+            continue
+        txt = open(os.path.join(d, fn), errors="replace").read()
+        for m in re.finditer(r"CREATE MATERIALIZED VIEW[^;]*?\bTO\s+(?:\{\{\.DB\}\}\.)?metrics_15s(?:_dist)?\b([^;]*);", txt, re.S):
+            views += 1
+            body = " ".join(m.group(1).split())
+            if ("intDiv(samples.timestamp_ns, %d) * %d as timestamp_ns" % (SLOT_NS, SLOT_NS)) not in body or not re.search(r"GROUP BY fingerprint, timestamp_ns\b", body):
+                bad.append("%s: %.160s" % (fn, body))
+    ck.obligation("metrics_15s is filled only by views that stamp a row with the start of its 15-second slot (%d views; the slot width of Scans.table_info)" % views,
+                  not bad and views >= 2, "; ".join(bad[:3]) or ("" if views >= 2 else "no view found"))
+    if bad:
+        ck.violation({"property": "C13", "part": "schema", "kind": "the roll-up table is not stamped on the slot boundaries the read bounds assume", "views": bad},
+                     no_input=True)
+
+
 def run(ck):
     ck.trusted += [
         "C13: ClickHouse semantics of WHERE/PREWHERE conjuncts (a row is returned only if every conjunct holds; SELECT aliases resolve in WHERE) "
@@ -1114,10 +1139,11 @@ def run(ck):
         "the normalisation `as ((` -> `as (` of redundant parentheses around a WITH body (checks/c13.py normalize) is trusted",
         "C13: the enumerators scans / tq_scans / presult_scans and the conjunct translation cv are the definition of 'every read of a statement'; the only "
         "statement builder left without a Coq model is ProfService.ProfileStats (no window in its API: recorded finding), judged per recorded statement",
+        "C13: a metrics_15s row stamped S holds exactly the samples of [S, S + 15 s) (ClickHouse materialized view semantics; the stamping expression of "
+        "the views is checked in the schema text on every run): the reading behind Scans.slot_bounded",
         "C13: stored dates: trace attribute rows tied to the real write path by harness spandate (32 zones); series rows by C04 (fix 433b3ba); "
         "profiles_series dates are computed by a materialized view inside ClickHouse (not modelled)",
     ]
-    ck.coq_props()
     # the shared sqltext runs use fixed scratch-directory names ("logql", "logqlm") under .build/ocaml/<repo>/:
     # checks of other properties running at the same time build in the same directory. Keep ours apart.
     orig_ocaml_eval = ck.ocaml_eval
@@ -1126,12 +1152,28 @@ def run(ck):
         from checks import sqltext
     except ImportError:
         sqltext = None
-    if sqltext is not None and not ck.replay:
-        # the planner theorems are about LogqlPlan.v: tie it to the Go planners byte for byte
-        sqltext.run_logql(ck, n_quick=400, n_thorough=20000)
-        if hasattr(sqltext, "run_logql_metric"):
-            sqltext.run_logql_metric(ck, n_quick=300, n_thorough=15000)
-    if not ck.replay:
-        static_date_sites(ck)
-        run_spandate(ck)
-    run_scan(ck)
+
+    def text_ties():
+        if sqltext is not None and not ck.replay:
+            # the planner theorems are about LogqlPlan.v: tie it to the Go planners byte for byte
+            sqltext.run_logql(ck, n_quick=400, n_thorough=20000)
+            if hasattr(sqltext, "run_logql_metric"):
+                sqltext.run_logql_metric(ck, n_quick=300, n_thorough=15000)
+        if not ck.replay:
+            static_date_sites(ck)
+            static_slot_stamp(ck)
+            run_spandate(ck)
+
+    # three independent parts side by side: the theorems (compiling props/C13.v with Print Assumptions takes ~20 s), the two
+    # LogQL text ties + the span dates, and the endpoint sweep. Everything is BUILT first (one scheduler run, a no-op when the
+    # .vo files are fresh), so that no part reads a .vo another part is writing.
+    ok, out = ck.coq_make(["props/C13.vo", "model/ScanCases.vo", "model/LogqlCases.vo", "model/LogqlMetricSem.vo"])
+    if not ok:
+        ck.coq_props()      # reports the failing theorems
+        return
+    from concurrent.futures import ThreadPoolExecutor
+    with ThreadPoolExecutor(max_workers=2) as ex:
+        futs = [ex.submit(ck.coq_props), ex.submit(text_ties)]
+        run_scan(ck)
+        for f in futs:
+            f.result()
